@@ -8,6 +8,7 @@ From Crusta Require Import Model.Equiv.
 From Crusta Require Import Model.Readers Model.Writers.
 From Crusta Require Import Sat.Dpll Sat.Dimacs Model.SatObjects Model.Pipe.
 From Crusta Require Import Model.Cli.
+From Crusta Require Import Spec.AF Sat.Cnf Sat.Prog Model.Store Model.Encoders Model.Graph Model.Solvers Model.Dynamic.
 Extraction Language OCaml.
 Separate Extraction
   (* spec oracle *)
@@ -46,3 +47,5 @@ Separate Extraction
   Cli.read_problem_string Cli.wrapper_argv Cli.run_script Cli.parse_answer Cli.beqb Store.new_attack
   (* (new roots go above this line; the terminating period stays alone on the next line) *)
 .
+  (* dynamic solvers *)
+  Dynamic.dyn_new Dynamic.dyn_update Dynamic.dyn_query.
